@@ -163,3 +163,32 @@ func ZZ_C13_reaper() {
 	zzsym.Reach("returned")
 	zzsym.Assert(stoppedAt != 0 && zzsym.NowNs()-stoppedAt <= zzPrompt, "stops-promptly-reaper")
 }
+
+// zzSlowExec: an execution client whose mempool call only returns when its
+// context ends (a remote client during an outage).
+type zzSlowExec struct{ zzExec }
+
+func (e *zzSlowExec) GetTxs(ctx context.Context) ([][]byte, error) {
+	<-ctx.Done()
+	return nil, ctx.Err()
+}
+
+// ZZ_C13_reaper_slow_executor: the reaper is inside a slow mempool call when
+// the node stops (the node's run context is cancelled; the context the
+// reaper was constructed with stays alive): it returns.
+func ZZ_C13_reaper_slow_executor() {
+	zzsym.SetClockNs(1 << 50)
+	zzsym.FreezeClock()
+	e := zzNewEnv(1)
+	appCtx := context.Background()
+	r := NewReaper(appCtx, &zzSlowExec{}, e.seq, e.chainID, time.Second, m0logger(), &zzSeen{m: map[string]bool{}})
+	ctx, cancel := context.WithCancel(appCtx)
+	t0 := zzsym.NowNs()
+	stopAfter := zzsym.I64("stopAfter")
+	zzsym.Assume(stopAfter >= int64(time.Second) && stopAfter <= int64(3*time.Second))
+	var stoppedAt int64
+	zzsym.At(t0+stopAfter, func() { stoppedAt = zzsym.NowNs(); cancel() })
+	r.Start(ctx)
+	zzsym.Reach("returned")
+	zzsym.Assert(stoppedAt != 0 && zzsym.NowNs()-stoppedAt <= zzPrompt, "stops-promptly-reaper-in-slow-call")
+}
